@@ -312,7 +312,19 @@ func (s *source) serve(h int, class string, variant int) (*gtypes.Block, string)
 			b.LastCommit = &gtypes.Commit{Precommits: []*gtypes.Vote{nil}}
 			return b, "block 1 with a non-empty LastCommit"
 		}
-		switch variant % 6 {
+		switch variant % 7 {
+		case 6:
+			// precommits of everybody, validly signed for a DIFFERENT block id, under a commit envelope that names the
+			// genuine block (Commit.BlockID is covered by no hash and no signature: only the votes may be believed)
+			vs := s.valsets[h-2]
+			other := s.snaps[h-2].blockID
+			other.Hash = append([]byte{0x66}, other.Hash[1:]...)
+			c := &gtypes.Commit{BlockID: s.snaps[h-2].blockID, Precommits: make([]*gtypes.Vote, vs.Size())}
+			for i, val := range vs.Validators {
+				c.Precommits[i] = chainutil.SignedVote(chainutil.ChainID, vs, i, s.ring[string(val.Address)], int64(h-1), 0, other)
+			}
+			b.LastCommit = c
+			return b, "precommits for another block id under a commit envelope naming the genuine block"
 		case 0, 1:
 			// the quorum of the OTHER epoch: sufficient under the other validator set, not under the one in force
 			if epoch2 {
